@@ -11,7 +11,7 @@ import readmodel as rm
 
 PROP = "C06"
 MODEL_TARGETS = ["Corr/ReadShow.vo"]
-THEOREMS = ["C06_iff", "C06_iff_cellwise", "C06_index_kept", "C06_text_untouched", "C06_none_policy", "C06_columnwise", "C06_length"]
+THEOREMS = ["C06_iff", "C06_iff_cellwise", "C06_index_kept", "C06_text_untouched", "C06_none_policy", "C06_columnwise", "C06_length", "C06_null_bind_current"]
 ASSUMPTIONS = [
     "numeric equality of a sample and NULL is IEEE == on the doubles CPython assigns to the two texts (oracle numeq)",
     "on writing, NaN -> str(NULL) is the writer's rule (C01/C16 model); the write->read cycle is checked on the implementation",
